@@ -72,8 +72,10 @@ def gen_description(rng, label):
             p['frequency'] = rng.randint(1, 4)
         if rng.random() < 0.5:
             p['start'] = rng.randint(0, 6)
-        if rng.random() < 0.4:
-            p['end'] = rng.randint(5, 50)
+        if rng.random() < 0.5:
+            p['end'] = rng.choice([0, 0, 1, rng.randint(5, 50), rng.randint(5, 50)])      # incl. one-shot systems (end 0)
+            if p['end'] == 0:
+                p['start'] = 0
         s = {'name': 'RSystem', 'module': mod(), 'params': p}
         if rng.random() < 0.15:
             # the class name only resolves once this system's pre hook has run (plug-in style late binding)
